@@ -112,7 +112,7 @@ def gen_case(rng, uid):
     sel = rng.choice(["chooser-default", "chooser-default", "chooser-sim", "auto-selector", "auto-selector-unknown"])
     style = rng.choice(["api", "api", "run"])
     periods = []
-    for _ in range(rng.choice([1, 2, 3])):
+    for _ in range(rng.choice([1, 2, 3]) if rng.random() > 0.04 else 9):       # now and then many periods on one selector
         if style == "api":
             ops = []
             if rng.random() < 0.15 and not (periods and not any(o_[0] == "disable" for o_ in periods[-1][1:])):
